@@ -90,3 +90,16 @@ func mix64(a uint64, b string, c uint64) uint64 {
 	h ^= h >> 29
 	return h
 }
+
+// Perm returns a permutation of 0..n-1 (all zeros on the tape = identity).
+func (t *Tape) Perm(n int) []int {
+	p := make([]int, n)
+	for i := range p {
+		p[i] = i
+	}
+	for i := 0; i < n-1; i++ {
+		j := i + t.Int(n-i)
+		p[i], p[j] = p[j], p[i]
+	}
+	return p
+}
